@@ -867,7 +867,21 @@ class Gen:
                 s = s.parent
             s.vars[nm] = Var(nm, "var", depth=self.fn_depth)
             self.use("var")
-            return "var %s%s;" % (nm, " = " + init if init is not None else "")
+            first = "var %s%s;" % (nm, " = " + init if init is not None else "")
+            if init is not None and r.chance(0.3):
+                # a second declaration of the same var whose initializer reads the variable while it is being
+                # computed, or fails half-way: the old value must stay visible until the initializer has completed
+                self.use("var_redeclare_self")
+                e = self.literal()
+                form = r.choice(["[...X, E]" if nm.startswith("a") else "[X, E]", "[E, X]", "{t: X, u: E}", "{u: E, ...X}", "(E || X)", "(X || E)", "(E && X)",
+                                 "(X ?? E)", "(E ?? X)", "(E, X)", "`t${X}`", "[X].concat([X])", "(X ? [X] : {v: X})",
+                                 "THROW[X, null.p]", "THROW{t: X, u: undeclaredInit()}", "THROW[...X, ...null]", "THROW(X || E, [E, null.p])"])
+                if form.startswith("THROW"):
+                    second = "try { var %s = %s; } catch (e) { print('init threw'); }" % (nm, form[5:].replace("X", nm).replace("E", e))
+                else:
+                    second = "var %s = %s;" % (nm, form.replace("X", nm).replace("E", e))
+                return "%s %s print(%s);" % (first, second, nm)
+            return first
         nm = self.new_let_name() if (k == "let" or "assign_const_in_tdz" not in self.avoid) else self.fresh(r.choice(["v", "v", "o", "a"]))
         if k == "let":
             init = self.init_for(nm) if r.chance(0.85) else None
